@@ -47,7 +47,7 @@ PROPS = {
         level_text="Proof that the byte source the reader sees is a plain stream whatever the transport chunking, bufio size and read sizes (take/read/skip laws over the bufio model, all chunkings), and that unmasking is position-correct across reads; message level (read_message, abandon_then_next): from an idle reader a conformant message — any fragmentation incl. empty frames, any masking keys, pings/pongs between fragments, either role, any bufio size ≥ 125, any chunking — is announced with its type and read to exactly its payload with reads of any size, abandonment at any point leaves the next message intact; compressed messages (read_compressed_message): what reaches the decompressor is exactly the concatenated payloads, and the same bytes are refused when compression was not negotiated; JoinMessages (join_message, join_two_messages): payload ++ terminator per message for reads of any size. Tie: conformant streams from an independent Go encoder (all length classes, extreme keys, empty fragments, controls anywhere, deflate at several levels) fed through scripted transports with 6 chunkings and read with random programs (ReadMessage, NextReader+reads of 13 sizes, abandon, stale readers) on the real package and the model; every returned byte count compared.",
         level_note="compress/flate's inflate and its read sizes are environment (after a compressed read scenarios use whole-message reads); ReadJSON is ReadMessage + encoding/json (environment).",
         lean=["WS.Props.C03"],
-        streams=[("rconf", 800, 16000), ("join", 200, 4000), ("zcut", 400, 10000)],
+        streams=[("rconf", 800, 16000), ("join", 200, 4000), ("zcut", 1200, 20000)],
         assumptions=[ASSUME_BUFIO, ASSUME_FLATE],
     ),
     "C04": P(
